@@ -128,7 +128,7 @@ def extract(repo="/repo", target_dir=None, out_dir=None, use_cache=True, log=sys
         # keep the facts cache small
         base = os.path.join(CACHE, "facts")
         ds = sorted((os.path.getmtime(os.path.join(base, d)), d) for d in os.listdir(base))
-        for _, d in ds[:-6]:
+        for _, d in ds[:-48]:  # more than the number of trees analysed side by side (tools/*_results.py -j 14)
             shutil.rmtree(os.path.join(base, d), ignore_errors=True)
         return out_dir, {"cached": False, "key": key, "wall_s": time.time() - t0}
     finally:
